@@ -173,6 +173,14 @@ class ActionDefinition:
             # 📝 Handle object definition: {"type": "myAction", ...}
             logger.debug("🔧 Parsing action definition from dict: %s", config)
             self.type: str = config.get("type", "UnknownAction")
+            # 🛡️ The type is looked up by name and prefix-matched against the
+            #    built-ins; a non-string was accepted here and then failed
+            #    with a raw AttributeError when the action was executed.
+            if not isinstance(self.type, str):
+                raise InvalidConfigError(
+                    "Action 'type' must be a string, got "
+                    f"{type(self.type).__name__}: {config!r}"
+                )
             self.params: Optional[Dict[str, Any]] = config.get("params")
         else:
             # ❌ Reject invalid definitions
